@@ -299,6 +299,22 @@ def contains_total(ip, st, item, cont):
             raise Unsupported("non-str in str")
         if not is_sym(item) and not is_sym(cont):
             return item in cont
+        if is_sym(item) and item.term.op == "str.from_code" and not is_sym(cont):
+            # chr(x) in "<constant>": x is one of the code points (exact)
+            x = item.term.args[0]
+            codes = sorted({ord(ch) for ch in cont})
+            ranges, start, prev = [], None, None
+            for c in codes:
+                if start is None:
+                    start = prev = c
+                elif c == prev + 1:
+                    prev = c
+                else:
+                    ranges.append((start, prev))
+                    start = prev = c
+            if start is not None:
+                ranges.append((start, prev))
+            return as_value("bool", tm.Or(*[tm.And(tm.Le(tm.Int(a), x), tm.Le(x, tm.Int(b))) for a, b in ranges]))
         return as_value("bool", tm.Contains(to_term(cont), to_term(item)))
     if k == "bytes":
         if kind_of(item) == "int":
